@@ -523,6 +523,8 @@ func (s *State) diffIOSACLs(al, bl []*cmd, diff []edit.Range) {
 				p = stripLogRX.ReplaceAllLiteralString(p, "")
 				if cmdPos, found := delMap[p]; found {
 					moveACL(cmdPos, b, r.LowA, i, moveOK)
+					// Line on device can be moved only once.
+					delete(delMap, p)
 				} else {
 					addACL(b, r.LowA, i)
 				}
